@@ -74,7 +74,7 @@ pub fn run_fixed_tier(ctx: &Ctx, replay: impl Fn(&Ctx, &str, &Value) -> Result<(
 /// per-property framework settings
 pub fn configure(ctx: &mut Ctx) {
     if ctx.id == "C09" {
-        ctx.hang_limit = std::time::Duration::from_secs(20);
+        ctx.hang_limit = std::time::Duration::from_secs(45);
         ctx.hang_is_violation = true;
     }
 }
